@@ -154,7 +154,7 @@ PctDef ==
 
 (* separators: every fourth character from the right is a comma, nothing else is; digits unchanged *)
 GroupOK ==
-  LET d == NormInt(ds)
+  LET d == NormInt(ds \o ds \o ds)          \* up to 3*W digits: several groups
       g == Group3Chars(d)
   IN  /\ Len(g) = Len(d) + (Len(d) - 1) \div 3
       /\ \A i \in 1..Len(g) : (g[Len(g) + 1 - i] = ",") <=> (i % 4 = 0)
